@@ -31,6 +31,12 @@ CLAIMED = {
  "C12": ("exploration", "deterministic simulation: invariant monitor on encode-only runs with a write-counting view of the backend",
          "After every encode of an encode-only history from the empty coder: bits <= sum(info)+sum(eps)+(S+2W) with the analytically derived eps, words <= n + const, at most one backend write per encode_symbol. Long runs (up to 2000 symbols) so that a per-symbol leak overwhelms the constant.",
          "Float summation slack 1e-6*n+1e-6 bits; information content computed from the model's own fixed-point probabilities.", "DESIGN 3 C12"),
+ "C13": ("exploration", "deterministic simulation with fault injection: decode / export / three re-import ways / re-encode histories with precision schedules on arbitrary data; truncated remainders; error-before-change via pre-call clones",
+         "ChainCoder over every (Word,State) of the menu, from_binary and from_compressed, arbitrary data words, precision-change schedules (change_precision between symbols, undone in reverse), the three documented ways of re-importing remainders (suffix only, prefix++suffix, live coder); oracles: prefix ++ recovered parts equal the original words exactly, no leftover remainders, OutOfCompressedData / OutOfRemainders are reported before any state change (coder equals its pre-call clone), truncated remainders never yield wrong data, constructors refuse only when the reference says the data is too short.",
+         "Trusted base: R-CHAIN head-initialisation rule; harness models.", "DESIGN 3 C13"),
+ "C14": ("exploration", "deterministic simulation with fault injection: twin consumers over the same data with bit flips confined to one chunk (by R-CHAIN bit provenance) or one model replaced",
+         "Symbol i must be exactly what model i assigns to the i-th PRECISION-bit chunk as extracted by the independent bit-deque reference R-CHAIN; flipping bits inside chunk j or replacing model j may change only symbol j and never whether or when OutOfCompressedData occurs.",
+         "Fixed PRECISION per run (the property speaks about PRECISION-bit chunks); R-CHAIN is an explicit bit-deque formulation of the consumption order.", "DESIGN 3 C14"),
  "C16": ("exploration", "deterministic simulation: seeded write/read/encode/decode/export/re-import/inspection histories on bit-level coders against the R-BITS reference (Vec<bool>)",
          "StackCoder and QueueEncoder/QueueDecoder over five word types and three backends, with Huffman (integer and float weights) and Exp-Golomb (u8..u64, symbols incl. 0, 2^k-1, 2^k, MAX-1, MAX) codebooks, pre-filled queue sinks; oracles: len()/is_empty() exact at every step, pops return pushes in reverse, queue reads in order followed only by zero padding, decode_symbol equals the same codebook run over R-BITS, export + re-import preserves len and content at every fill level of the last word, maybe_exhausted after the last bit.",
          "Codeword bits are obtained from the codebooks themselves (their correctness is C15, not decided here); R-BITS is a Vec<bool>.", "DESIGN 3 C16"),
@@ -48,7 +54,7 @@ NA = {
  "C15": "pure function of a weight vector (prefix-freeness, Kraft equality, optimality, tie-breaking of Huffman codebooks); no history or fault dimension; see DESIGN section 4",
  "C19": "pure function of constructor input (accept => valid, else fail cleanly); the only fault-injection aspect (garbage parameters must not cause UB) is handled under C20; see DESIGN section 4",
 }
-for pid in ["C05","C10","C13","C14","C20"]:
+for pid in ["C05","C10","C20"]:
     if pid not in CLAIMED:
         PENDING[pid] = "check under construction in this round (design in DESIGN.md section 3); not claimed until its explorer is committed"
 
